@@ -1,17 +1,20 @@
 #!/usr/bin/env python3
-"""Runs checks against a seeded change: apply to /repo, run, ALWAYS undo.
-usage: mutest.py <seedname> <PROP>[,<PROP>...] [tier]   -> prints CAUGHT / MISSED per property"""
-import subprocess, sys, os
+"""Runs checks against a seeded change WITHOUT touching /repo: the change is applied in a scratch worktree of
+/repo HEAD and the checks are pointed at it (VERIF_REPO / VERIF_WORK / VERIF_EVID overrides in lib/vlib.py).
+usage: mutest.py <seedname> <PROP>[,<PROP>...] [tier]   -> prints CAUGHT / MISSED / TOOLERR per property"""
+import subprocess, sys, os, shutil
 seed, props = sys.argv[1], sys.argv[2].split(",")
 tier = sys.argv[3] if len(sys.argv) > 3 else "quick"
 patch = f"/verif/seeded/{seed}/patch.diff"
-st = subprocess.run("git -C /repo status --porcelain --untracked-files=no", shell=True, capture_output=True, text=True).stdout
-if st.strip():
-    sys.exit("refusing: /repo has uncommitted changes:\n" + st)
-subprocess.run(f"git -C /repo apply {patch}", shell=True, check=True)
+wt = f"/tmp/mx_{seed}"
+subprocess.run(f"git -C /repo worktree remove --force {wt}", shell=True, capture_output=True)
+shutil.rmtree(wt, ignore_errors=True)
+subprocess.run(f"git -C /repo worktree add -q --detach {wt} HEAD", shell=True, check=True)
 try:
+    subprocess.run(f"git -C {wt} apply {patch}", shell=True, check=True)
+    env = dict(os.environ, VERIF_REPO=wt, VERIF_WORK=f"{wt}/vwork", VERIF_EVID=f"{wt}/vevid")
     for p in props:
-        r = subprocess.run(["/verif/check", p, tier], cwd="/verif", capture_output=True, text=True)
+        r = subprocess.run(["/verif/check", p, tier], cwd="/verif", capture_output=True, text=True, env=env)
         viol = [l for l in r.stdout.splitlines() if l.startswith("VIOLATION")]
         verdict = "CAUGHT" if r.returncode == 1 and viol else ("TOOLERR" if r.returncode == 2 else "MISSED")
         print(f"{seed} vs {p} ({tier}): {verdict} rc={r.returncode} violations={len(viol)}")
@@ -19,4 +22,5 @@ try:
             if l.startswith("  (") or l.startswith("TOOL-ERROR"):
                 print("   ", l[:300]); break
 finally:
-    subprocess.run("git -C /repo checkout -- .", shell=True, check=True)
+    subprocess.run(f"git -C /repo worktree remove --force {wt}", shell=True, capture_output=True)
+    shutil.rmtree(wt, ignore_errors=True)
